@@ -16,7 +16,11 @@ from pyvc.contracts import contract, shape, Contract
 
 FMB = "nessai/flowmodel/base.py"
 
-shape("FlowNetAbs", {"version": "Int"}, methods={
+# `cache`: the parameter version the eval-mode caches of the LU linear
+# layers (weight and log-determinant, filled by a forward pass in eval mode)
+# were computed for; -1 = empty.  train() empties them; loading a state
+# dictionary does NOT.
+shape("FlowNetAbs", {"version": "Int", "cache": "Int"}, methods={
     "state_dict": Contract(
         "<abstract>", "FlowNetAbs.state_dict", trusted=True,
         trusted_reason="snapshot of the parameters", returns="Int",
@@ -31,7 +35,9 @@ shape("FlowNetAbs", {"version": "Int"}, methods={
         "resampled base distribution re-estimates its normalisation)",
         modifies=["self.version"]),
     "train": Contract("<abstract>", "FlowNetAbs.train", trusted=True,
-                      trusted_reason="mode switch: parameters unchanged"),
+                      trusted_reason="mode switch: parameters unchanged; "
+                      "the eval-mode caches are dropped",
+                      modifies=["self.cache"], ensures=["self.cache == -1"]),
     "eval": Contract("<abstract>", "FlowNetAbs.eval", trusted=True,
                      trusted_reason="mode switch: parameters unchanged"),
 })
@@ -65,13 +71,18 @@ shape("FlowModelTrain", {
         params={"train_data": "Any", "noise_scale": "Any",
                 "is_dataloader": "Any", "weighted": "Any",
                 "is_conditional": "Any"}, trusted=True,
-        trusted_reason="one epoch of optimisation: new parameters",
-        modifies=["self.model.version"], returns="Real"),
+        trusted_reason="one epoch of optimisation (train mode): new "
+        "parameters, caches dropped",
+        modifies=["self.model.version", "self.model.cache"], returns="Real",
+        ensures=["self.model.cache == -1"]),
     "_validate": Contract(
         "<abstract>", "FlowModel._validate",
         params={"val_data": "Any", "is_dataloader": "Any",
                 "weighted": "Any", "is_conditional": "Any"}, trusted=True,
-        trusted_reason="evaluation only", returns="Real"),
+        trusted_reason="evaluation in eval mode: fills the caches for the "
+        "current parameters", modifies=["self.model.cache"], returns="Real",
+        ensures=["self.model.cache == self.model.version or "
+                 "self.model.cache == old(self.model.cache)"]),
     "save_weights": Contract(
         "<abstract>", "FlowModel.save_weights",
         params={"weights_file": "Any"}, trusted=True,
@@ -83,7 +94,7 @@ shape("FlowModelTrain", {
 contract(FMB, "FlowModel.finalise", props=["C03"], verify=False,
          inline=True)
 contract(
-    FMB, "FlowModel.train", props=["C03"],
+    FMB, "FlowModel.train", props=["C03", "C08"],
     self_shape="FlowModelTrain",
     params={"samples": "Seq(Sort(X))", "weights": "Opt(Seq(Real))",
             "conditional": "None", "max_epochs": "Opt(Int)",
@@ -103,12 +114,17 @@ contract(
     may_raise={"ValueError": None},
     modifies=["self.initialised", "self.model", "self._optimiser",
               "self.scheduler", "self.ghost_saved_version"],
-    loops={0: {"inv": [], "modifies": ["self.model.version"],
+    loops={0: {"inv": [], "modifies": ["self.model.version",
+                                       "self.model.cache"],
                "declare": {"loss": "Real", "val_loss": "Real",
                            "epoch": "Int"}}},
     returns="Any",
     ensures=[
         # the file written last holds the flow as it is used from now on
         "self.ghost_saved_version == self.model.version",
+        # C08: no stale eval-mode cache is left behind (the density of a
+        # generated sample and the density evaluated at it would use
+        # different weights)
+        "self.model.cache == -1 or self.model.cache == self.model.version",
     ],
 )
